@@ -37,6 +37,7 @@ class SockWorld:
         self.raise_in_msg_sub = False
         self.raise_in_conn_sub = False
         self.on_connect_hooks = []
+        self.on_disconnect_hooks = []
         self.msg_delays = []
         self.sock.subscribe_on_message_received(self._on_msg)
         self.sock.subscribe_on_connection_changed(self._on_conn)
@@ -60,6 +61,10 @@ class SockWorld:
         self.log.add("SUB.conn", connected=connected)
         if connected and self.on_connect_hooks:
             hooks, self.on_connect_hooks = self.on_connect_hooks, []
+            for h in hooks:
+                await h()
+        if not connected and self.on_disconnect_hooks:
+            hooks, self.on_disconnect_hooks = self.on_disconnect_hooks, []
             for h in hooks:
                 await h()
         if self.raise_in_conn_sub:
